@@ -117,7 +117,7 @@ def pong_echo_lookalikes(cfl: int, ws: bool, i: int) -> str:
 
 SERVER_SCRIPT = ('4text', '4{"k":[1,2]}', 'bAAEC/w==', '6', '7x', '2hb', '412', '4', '9')
 SERVER_EXPECT = {'4text': 'text', '4{"k":[1,2]}': {'k': [1, 2]}, 'bAAEC/w==': b'\x00\x01\x02\xff', '412': '12', '4': ''}
-SENDS = ('hello', {'j': [1]}, b'\x00\xfe', '', [1, 'two'], b'')
+SENDS = ('hello', {'j': [1]}, b'\x00\xfe', '', [1, 'two'], b'', bytearray(b'\x01\x02\xff'))
 
 
 def _io(cfl, mode, s0, s1, s2, ns, a0, a1, a2, na, burst):
@@ -199,7 +199,7 @@ def ordered_io(cfl: int, mode: int, s0: int, s1: int, s2: int, ns: int, a0: int,
     """
     pre: cfl == P.C and mode == P.M and 0 <= ns <= P.N and 0 <= na <= P.N
     pre: 0 <= s0 < len(SERVER_SCRIPT) and 0 <= s1 < len(SERVER_SCRIPT) and 0 <= s2 <= 3 and (ns >= 3 or s2 == 0) and (ns >= 2 or s1 == 0) and (ns >= 1 or s0 == 0)
-    pre: 0 <= a0 < len(SENDS) and 0 <= a1 <= 2 and 0 <= a2 <= 2 and (na >= 3 or a2 == 0) and (na >= 2 or a1 == 0) and (na >= 1 or a0 == 0)
+    pre: 0 <= a0 < len(SENDS) and (0 <= a1 <= 2 or a1 == 6) and 0 <= a2 <= 2 and (na >= 3 or a2 == 0) and (na >= 2 or a1 == 0) and (na >= 1 or a0 == 0)
     pre: (ns <= 1 or na <= 1)
     post: _ == ''
     """
